@@ -109,6 +109,14 @@ func genHistory(t *rapid.T, maxOps int) ClusterCase {
 			// the node's underlying store rejects its next StoreLogs (nothing written); raft retries
 			c.Ops = append(c.Ops, HOp{K: "failstore", Node: rapid.IntRange(0, c.N-1).Draw(t, "node")})
 		default:
+			if rapid.IntRange(0, 3).Draw(t, "queuedcompact") == 0 {
+				op := HOp{K: "queuedcompact"}
+				for j := 0; j < rapid.IntRange(0, 3).Draw(t, "n"); j++ {
+					op.Entries = append(op.Entries, genESpec(t, 0))
+				}
+				c.Ops = append(c.Ops, op)
+				break
+			}
 			if rapid.IntRange(0, 2).Draw(t, "racecompact") == 0 {
 				// the leader appends while a compaction of entries behind its last checkpoint, running on
 				// another goroutine (raft's snapshot goroutine), is inside the underlying store's DeleteRange
@@ -209,6 +217,14 @@ func (s *sim) leaderAppend(es []ESpec) *common.Failure {
 		// store now and the reports that follow are held to the usual rule
 		s.cls["callback-error-but-stored"] = true
 	}
+	if f := s.recordTruth(ld, logs); f != nil {
+		return f
+	}
+	return s.settle(ld)
+}
+
+// recordTruth notes, for every checkpoint among the entries the leader just stored, what it checksummed.
+func (s *sim) recordTruth(ld *Node, logs []*raft.Log) *common.Failure {
 	for _, l := range logs {
 		if ok, _ := isCheckpoint(l); ok {
 			if len(l.Extensions) < 24 {
@@ -225,7 +241,87 @@ func (s *sim) leaderAppend(es []ESpec) *common.Failure {
 			s.nodeEv[s.leader] = map[string]bool{}
 		}
 	}
-	return s.settle(ld)
+	return nil
+}
+
+// queuedCompact: while the leader's report callback is held inside the report of checkpoint A,
+// checkpoint B is stored (its report waits in the hand-off buffer) and a head compaction then
+// removes the start of B's range. When B is verified the node lacks part of the range: the
+// report must say ErrRangeMismatch. (A was verified before the compaction and is judged against
+// what the node held then.)
+func (s *sim) queuedCompact(op HOp) *common.Failure {
+	ld := s.nodes[s.leader]
+	if f := s.settle(ld); f != nil {
+		return f
+	}
+	if ld.Told.Empty() {
+		return nil
+	}
+	block, entered := make(chan struct{}), make(chan struct{}, 1)
+	ld.mu.Lock()
+	ld.block, ld.entered = block, entered
+	ld.mu.Unlock()
+	released := false
+	release := func() {
+		if released {
+			return
+		}
+		released = true
+		ld.mu.Lock()
+		close(ld.block)
+		ld.block, ld.entered = nil, nil
+		ld.mu.Unlock()
+	}
+	defer release()
+	next := ld.LogicalLast + 1
+	a := []*raft.Log{ESpec{DataLen: 3, Seed: 17, CP: true}.mk(next, s.term)}
+	if err := ld.Store(a); err != nil {
+		return common.Failf("leader-store-err", "%v", err)
+	}
+	if f := s.recordTruth(ld, a); f != nil {
+		return f
+	}
+	<-entered
+	var b []*raft.Log
+	for i, e := range op.Entries {
+		e.CP, e.Err = false, false
+		b = append(b, e.mk(next+1+uint64(i), s.term))
+	}
+	cpB := ESpec{DataLen: 2, Seed: 18, CP: true}.mk(next+1+uint64(len(op.Entries)), s.term)
+	b = append(b, cpB)
+	if err := ld.Store(b); err != nil {
+		return common.Failf("leader-store-err", "%v", err)
+	}
+	if f := s.recordTruth(ld, b); f != nil {
+		return f
+	}
+	trB := s.truth[cpKey(cpB.Index, cpB.Term)]
+	toldBefore := ld.Told.Clone()
+	if trB == nil || trB.Start < ld.Told.First {
+		return nil
+	}
+	if err := ld.Delete(ld.Told.First, trB.Start); err != nil {
+		return common.Failf("delete-err", "leader head DeleteRange = %v", err)
+	}
+	s.nodeEv[s.leader]["headtrunc"] = true
+	release()
+	ld.Quiesce()
+	if ld.AccountingFail != "" {
+		return common.Failf("checkpoint-unaccounted", "%s", ld.AccountingFail)
+	}
+	for _, r := range ld.TakeReports() {
+		toldNow := ld.Told
+		if r.Range.End == a[0].Index {
+			ld.Told = toldBefore // verified before the compaction
+		}
+		f := s.judge(ld, r)
+		ld.Told = toldNow
+		if f != nil {
+			return f
+		}
+	}
+	s.cls["compaction-while-report-queued"] = true
+	return nil
 }
 
 // replicate brings follower f towards the leader's log, raft style.
@@ -452,6 +548,8 @@ func (s *sim) run() *common.Failure {
 			s.cls["store-failure-armed"] = true
 		case "racecompact":
 			f = s.raceCompact(op)
+		case "queuedcompact":
+			f = s.queuedCompact(op)
 		case "headtrunc":
 			i := op.Node % s.c.N
 			n := s.nodes[i]
